@@ -56,6 +56,7 @@ pub fn registry() -> Vec<Box<dyn Check>> {
         Box::new(rw::RwCheck { id: "C11R" }),
         Box::new(rw::RwCheck { id: "C06R" }),
         Box::new(rw::RwCheck { id: "C13R" }),
+        Box::new(rw::RwCheck { id: "C07S" }),
         Box::new(rw::StopCheck),
         Box::new(explain::ExplainCheck),
         Box::new(repro::ReproCheck),
